@@ -56,15 +56,32 @@ Definition partial_check (end1 start2 : Z) (has_dim_attr : bool) (interleaved : 
   if (end1 =? start2)%Z && negb has_dim_attr && match interleaved with Some v => (v =? 0)%Z | None => true end
   then Some end1 else None.
 
+(* ---- RotaryEmbedding23Fusion.rewrite and the batch of the cos / sin caches (C19:rules.fusion:rotary_embedding:freqs-batch-broadcast).
+   Dim codes as in Attn.v: static n >= 0; NAMED symbolic dim <= -2 (one code per name); UNNAMED dim -1.
+   _ir_utils.same_dim: both static and equal, or both named with the same name; an unnamed dim is the same as nothing. *)
+Definition same_dim (a b : Z) : bool := Z.eqb a b && negb (Z.eqb a (-1)).
+(* [repaired] = false: the rewrite as read at bbeff32 (freqs passed on as they are); true: fix c0398a5 -- freqs are expanded to
+   the batch of x unless freqs has rank 3 and its batch dim is the same as x's.  Result: is an Expand emitted? *)
+Definition rope23_expands (repaired : bool) (freqs : option (list Z)) (x_batch : Z) : bool :=
+  repaired && negb (match freqs with Some [fb; _; _] => same_dim fb x_batch | _ => false end).
+(* run-time batch of the cache the fused node receives: Expand(freqs, [B,1,1]) broadcasts (NumPy) *)
+Definition cache_batch_after (expands : bool) (fb_rt xb_rt : Z) : Z := if expands then Z.max fb_rt xb_rt else fb_rt.
+(* the pattern's Mul(x, Unsqueeze(cos, 1)) broadcasts the batch: well-formed with result batch B iff fb is 1 or B;
+   the opset-23 operator (no position_ids) takes caches of shape (batch_size, sequence_length, head_size / 2) exactly *)
+Definition rope23_pattern_ok (fb_rt xb_rt : Z) : bool := (fb_rt =? 1)%Z || (fb_rt =? xb_rt)%Z.
+Definition rope23_operator_ok (cache_b xb_rt : Z) : bool := (cache_b =? xb_rt)%Z.
+
 Definition oz_eqb (a b : option Z) : bool :=
   match a, b with Some x, Some y => Z.eqb x y | None, None => true | _, _ => false end.
 Inductive rot_case :=
   | CRot (rank : nat) (dim1 dim3 : option Z) (s1 e1 s2 e2 : Z) (observed : option Z)
-  | CPartial (end1 start2 : Z) (has_dim : bool) (interleaved : option Z) (observed : option Z).
+  | CPartial (end1 start2 : Z) (has_dim : bool) (interleaved : option Z) (observed : option Z)
+  | CRopeExpand (repaired : bool) (freqs : option (list Z)) (x_batch : Z) (observed_expand : bool).
 Definition rot_agrees (c : rot_case) : bool :=
   match c with
   | CRot r d1 d3 s1 e1 s2 e2 obs => oz_eqb (rot_check r d1 d3 s1 e1 s2 e2) obs
   | CPartial e1 s2 hd il obs => oz_eqb (partial_check e1 s2 hd il) obs
+  | CRopeExpand r f xb obs => Bool.eqb (rope23_expands r f xb) obs
   end.
 Fixpoint rot_disagreeing (i : nat) (cs : list rot_case) : list nat :=
   match cs with [] => [] | c :: t => (if rot_agrees c then [] else [i]) ++ rot_disagreeing (S i) t end.
